@@ -394,6 +394,12 @@ impl<N, E, H: BuildHasher + Default> DAG<N, E, H> {
       return Err(Error::CycleDetected);
     }
 
+    // If edge already exists short circuit. This must happen before inserting: inserting a node that is already in a
+    // `LinkedHashSet` moves it to the back, which would change the (first-)insertion order of the existing edges.
+    if self.node_info[src.0].children.contains(dst) {
+      return Ok(false);
+    }
+
     // Insert forward edge
     let mut no_prev_edge = self.node_info[src.0].children.insert(*dst);
     let upper_bound = self.node_info[src.0].topo_order;
